@@ -92,6 +92,9 @@ def _adjust_attributes_of_avg_pool(
 
     if isinstance(kernel_size, int):
         kernel_shape = [kernel_size] * expand_size
+    elif len(kernel_size) == 1:
+        # PyTorch reads a one-entry list as the same value for every spatial dimension
+        kernel_shape = list(kernel_size) * expand_size
     else:
         kernel_shape = kernel_size
 
@@ -108,6 +111,8 @@ def _adjust_attributes_of_avg_pool(
         strides = [stride] * expand_size
     elif not stride:
         strides = kernel_shape
+    elif len(stride) == 1:
+        strides = list(stride) * expand_size
     else:
         strides = stride
 
@@ -932,11 +937,16 @@ def _adjust_attributes_of_max_pool(
 ) -> Tuple[Sequence[int], Sequence[int], Sequence[int], Sequence[int]]:
     if isinstance(dilation, int):
         dilations = [dilation] * expand_size
+    elif len(dilation) == 1:
+        # PyTorch reads a one-entry list as the same value for every spatial dimension
+        dilations = list(dilation) * expand_size
     else:
         dilations = dilation
 
     if isinstance(kernel_size, int):
         kernel_shape = [kernel_size] * expand_size
+    elif len(kernel_size) == 1:
+        kernel_shape = list(kernel_size) * expand_size
     else:
         kernel_shape = kernel_size
 
@@ -965,6 +975,8 @@ def _adjust_attributes_of_max_pool(
         strides = [stride] * expand_size
     elif not stride:
         strides = kernel_shape
+    elif len(stride) == 1:
+        strides = list(stride) * expand_size
     else:
         strides = stride
 
